@@ -55,6 +55,8 @@ var reservedNames = map[string]any{
 	"float":   nil,
 	"complex": nil,
 	"str":     nil,
+	// the receiver of the generated constructor and methods
+	"self": nil,
 }
 
 var TypeSyntaxWriter dsl.TypeSyntaxWriter[string] = func(self dsl.TypeSyntaxWriter[string], t dsl.Node, contextNamespace string) string {
